@@ -37,6 +37,12 @@ theorem C12_cfg_current :
     legacyCfg = ⟨true, false, false, false, false, true, false, false⟩ ∧
     newCfg = ⟨false, false, true, true, true, false, true, true⟩ := by decide
 
+/-- **A refused name is not remembered** (tie of `acquireAll`, which tracks a name only after `register` accepted it, to the
+source): in `trigger_init` the statement `self.trigger_service.add(srv_name)` comes after `Function.service_register(...)`,
+so a declaration refused because another context owns the name leaves nothing to remove when its function dies
+(`C12_owner`, `C12_owner_shared` then keep the owner's registration intact). -/
+theorem C12_tracks_after_register : PsModel.Gen.LEGACY_TRACKS_AFTER_REGISTER = true := by decide
+
 /-- **Exact counting in both subsystems as they are now**: for every operation sequence the count of every service is
 exactly the number of registrations the live holders will give back (legacy: the holders are the live functions,
 `C12_legacy_holders_live`). -/
